@@ -45,7 +45,7 @@ Proof.
     apply fold_out_nothing. intros k ws0 _.
     rewrite (emit_file_of_excluded _ _ _ _ _ _ _ _ _ Hex). cbn [bind fst snd].
     destruct (reference_partial cfg); [left; reflexivity|].
-    destruct (lookup k (sections_subgroups seg)) as [others|]; [|left; reflexivity].
+    destruct (lookup k (subgroups_for seg f)) as [others|]; [|left; reflexivity].
     destruct (fold_out_nothing (chain_error seg)
                 (fun other ws => emit_sff rt sty cfg seg sections f n (section :: stack) other base ws)
                 others (fun other ws' _ => IHn (section :: stack) other base ws') ws0)
@@ -176,7 +176,8 @@ Section Prune.
         apply refines_bind; [apply refines_refl|]. intro d. apply Hkids.
       + intro o1. apply refines_bind; [|intro; apply refines_refl].
         destruct (reference_partial cfg); [apply refines_refl|].
-        destruct (lookup k (sections_subgroups seg)) as [others|]; [|apply refines_refl].
+        change (subgroups_for seg (with_files f kids')) with (subgroups_for seg f).
+        destruct (lookup k (subgroups_for seg f)) as [others|]; [|apply refines_refl].
         apply fold_out_refines. intros other ws1 _. apply IHn.
   Qed.
 
@@ -578,7 +579,7 @@ Section Agree.
       - rewrite !emit_sff_S. destruct (mem_str section stack); [reflexivity|].
         apply fold_out_ext. intros k ws0 _. rewrite (emit_file_of_agree f base k ws0 IHf H).
         step. destruct (reference_partial cfg); [reflexivity|].
-        destruct (lookup k (sections_subgroups seg)) as [others|]; [|reflexivity].
+        destruct (lookup k (subgroups_for seg f)) as [others|]; [|reflexivity].
         assert (Hch : forall ws',
                    fold_out (fun other ws => emit_sff rt1 sty cfg seg sections f n (section :: stack)
                                                       other base ws) others ws' =
